@@ -40,6 +40,7 @@ class UnitSpec:
         self.fn_clauses = {}   # qual -> [Clause]
         self.loop_clauses = {}  # (qual, ordinal) -> [Clause]   (kind invariant/decreases/invariant_except_break/ensures)
         self.ghosts = []       # (qual, where, anchor, text)
+        self.substs = []       # (rid, scope, regex, replacement)
         self.attrs = {}        # qual -> [attr text]
         self.fields = {}       # struct -> [field names]
         self.sigs = {}         # qual -> replacement result name
@@ -144,6 +145,12 @@ def parse_unit(path):
                 u.replaces.append((m2.group(1), m2.group(2), "\n".join(old), "\n".join(new), int(m2.group(3) or 1)))
             else:
                 u.replaces.append((m.group(1), m.group(2), m.group(4), m.group(5), int(m.group(3) or 1)))
+        elif d == "@subst":
+            # @subst Rn scope /regex/ => `replacement`   (pattern rewrite: every match, possibly none; applied after the literal replaces)
+            m = re.match(r"(\w+)\s+(\S+)\s+/(.*)/\s*=>\s*`(.*)`\s*$", rest)
+            if not m:
+                raise Undecided("bad @subst in %s:%d" % (path, i))
+            u.substs.append((m.group(1), m.group(2), m.group(3), m.group(4)))
         elif d == "@fn":
             cl, i = parse_clauses(i)
             u.fn_clauses.setdefault(rest, []).extend(cl)
@@ -404,6 +411,12 @@ class Rewriter:
                 raise Undecided("lost anchor: @replace %s in %s expects %d occurrence(s) of %r, found %d" % (rid, scope, cnt, old[:60], n))
             text = text.replace(old, new)
             self.note(rid, scope, old, new)
+        for (rid, sc, rx, new) in u.substs:
+            if sc != scope:
+                continue
+            for mt in re.finditer(rx, text, re.M):
+                self.note(rid, scope, mt.group(0), mt.expand(new))
+            text = re.sub(rx, new, text, flags=re.M)
         text = self.r1_logs(scope, text)
         if "R5" in u.rw:
             text = self.r5_ready(scope, text)
